@@ -176,8 +176,13 @@ func check(c rtCase) *harness.Failure {
 	// SetHusbandPointer/SetWifePointer on existing lines) - still a document built through
 	// the public API, and what was encoded before must not show
 	var f2 *harness.Failure
+	// an Encoder that was created before the edits below writes what the document holds
+	// when Encode is called
+	var early bytes.Buffer
+	earlyEncoder := gedcom.NewEncoder(&early, doc)
 	if f := safely("in-place-edit", func() {
 		doc.HasBOM = !doc.HasBOM
+		doc.AddNode(gedcom.NewNode(gedcom.TagFromString("_LATE"), "a root record added after the encoder was created", ""))
 		for k, ind := range doc.Individuals() {
 			ind.SetSex([]string{"F", "M", "U"}[k%3])
 		}
@@ -190,6 +195,13 @@ func check(c rtCase) *harness.Failure {
 			}
 		}
 		f2 = roundTrip(doc)
+		if f2 == nil {
+			if err := earlyEncoder.Encode(); err != nil {
+				f2 = harness.Failf("encoder-error", "Encoder.Encode: %v", err)
+			} else if early.String() != doc.String() {
+				f2 = harness.Failf("encoder-created-earlier-is-stale", "an Encoder created before the document was edited writes %q, the document is %q", trunc(early.String()), trunc(doc.String()))
+			}
+		}
 	}); f != nil {
 		return f
 	}
